@@ -33,13 +33,16 @@ func load(fn func([]byte, any) error, content string, t reflect.Type) (o outcome
 	return outcome{Verdict: "ok", Val: p.Elem().Interface()}
 }
 
+// same: equal verdicts and, on accept, deeply equal values. "Deeply equal" identifies a nil and
+// an empty slice / map (lead's classification: a nil-versus-empty difference is not a violation).
 func same(a, b outcome) bool {
-	return a.Verdict == b.Verdict && (a.Verdict != "ok" || reflect.DeepEqual(a.Val, b.Val))
+	return a.Verdict == b.Verdict && (a.Verdict != "ok" || valuesEqual(a.Val, b.Val))
 }
 
-// equalModuloNil: deep equality that identifies nil and empty slices / maps. It is NOT the
-// oracle (that is reflect.DeepEqual); it only refines the class key of a value difference so
-// that "nil vs empty container" differences are reported as their own cause.
+func valuesEqual(a, b any) bool { return equalModuloNil(reflect.ValueOf(a), reflect.ValueOf(b)) }
+
+// equalModuloNil: reflect.DeepEqual except that nil and empty slices / maps are identified. This
+// is the value equality of every oracle of this harness.
 func equalModuloNil(a, b reflect.Value) bool {
 	if a.Type() != b.Type() {
 		return false
@@ -87,11 +90,8 @@ func rel(o, ref outcome) string {
 	if o.Verdict != "ok" || ref.Verdict != "ok" {
 		return o.Verdict
 	}
-	if reflect.DeepEqual(o.Val, ref.Val) {
+	if valuesEqual(o.Val, ref.Val) {
 		return "ok"
-	}
-	if equalModuloNil(reflect.ValueOf(o.Val), reflect.ValueOf(ref.Val)) {
-		return "ok~" // accepted, differs only in nil vs empty container
 	}
 	return "ok*[" + diffDesc(reflect.ValueOf(o.Val), reflect.ValueOf(ref.Val)) + "]" // accepted, different value
 }
@@ -112,24 +112,24 @@ func diffDesc(a, b reflect.Value) string {
 	switch a.Kind() {
 	case reflect.Struct:
 		for i := 0; i < a.NumField(); i++ {
-			if !reflect.DeepEqual(a.Field(i).Interface(), b.Field(i).Interface()) {
+			if !equalModuloNil(a.Field(i), b.Field(i)) {
 				return diffDesc(a.Field(i), b.Field(i))
 			}
 		}
 	case reflect.Slice:
-		if a.IsNil() != b.IsNil() || a.Len() != b.Len() {
+		if a.Len() != b.Len() {
 			if size(a) == size(b) {
 				return "len"
 			}
 			return size(a) + "/" + size(b)
 		}
 		for i := 0; i < a.Len(); i++ {
-			if !reflect.DeepEqual(a.Index(i).Interface(), b.Index(i).Interface()) {
+			if !equalModuloNil(a.Index(i), b.Index(i)) {
 				return diffDesc(a.Index(i), b.Index(i))
 			}
 		}
 	case reflect.Map:
-		if a.IsNil() != b.IsNil() || a.Len() != b.Len() {
+		if a.Len() != b.Len() {
 			if size(a) == size(b) {
 				return "len"
 			}
@@ -145,7 +145,7 @@ func diffDesc(a, b reflect.Value) string {
 			if !bv.IsValid() {
 				return "keys"
 			}
-			if !reflect.DeepEqual(av.Interface(), bv.Interface()) {
+			if !equalModuloNil(av, bv) {
 				return diffDesc(av, bv)
 			}
 		}
@@ -361,6 +361,16 @@ func loadAll(spec *StructSpec, doc *Node, variant int) fmtOutcomes {
 // and inline style; only if the document has no null) must get the same verdict and deeply equal
 // values from conf.LoadFromJsonBytes / LoadFromYamlBytes / LoadFromTomlBytes.
 func checkFmt(spec *StructSpec, doc *Node, variant int) result {
+	if doc.hasNull() {
+		// not representable in TOML: outside the property's quantifier ("every document value
+		// representable in all three formats"); loaded for totality only, never judged
+		o := loadAll(spec, doc, variant)
+		r := result{}
+		if alwaysDetail {
+			r.Detail = "outside the quantifier (document contains null): json: " + show(o.J) + " | yaml: " + show(o.YB)
+		}
+		return r
+	}
 	return judgeFmt(loadAll(spec, doc, variant))
 }
 
@@ -434,6 +444,9 @@ func judgeCase(j0, jv outcome, variant int) result {
 // checkCase: re-spelling the struct-field keys of the document (lower / upper / swapped case)
 // must not change the result of LoadFromJsonBytes.
 func checkCase(spec *StructSpec, doc *Node, variant int) result {
+	if doc.hasNull() {
+		return result{Detail: "outside the quantifier (document contains null)"}
+	}
 	t := spec.Type()
 	j0 := load(conf.LoadFromJsonBytes, render(doc).JSON, t)
 	jv := load(conf.LoadFromJsonBytes, render(recase(doc, variant)).JSON, t)
@@ -457,7 +470,7 @@ func checkStd(spec *StructSpec, doc *Node, variant int) (result, string) {
 		res.Panics++
 	}
 	bucket := g.Verdict + "/" + s.Verdict
-	if res.Accepted && !reflect.DeepEqual(g.Val, s.Val) {
+	if res.Accepted && !valuesEqual(g.Val, s.Val) {
 		res.Sig = "gozero=" + rel(g, s) + ",std=ok"
 	}
 	if res.Sig != "" || alwaysDetail {
